@@ -27,7 +27,9 @@ CHECKS = {
             "constructors incl. new_wallet, both networks.", "5/C03"),
     "C04": ("round-trip PBT through a frozen official word list + exhaustive length sweep",
             "All five sizes with patterned/uniform entropy decoded word by word; every other byte length 0..64 enumerated; "
-            "whitespace/odd-length hex judged by result; embedded list pinned by two independent digests.", "5/C04"),
+            "whitespace/odd-length hex judged by result; the random sentence generators driven through a scripted random "
+            "source substituted from outside (drawn value must be encoded exactly; bit sizes 0..520 other than the five "
+            "refused); embedded list pinned by two independent digests.", "5/C04"),
     "C05": ("differential PBT vs independent address decoders; exhaustive hash lengths",
             "Five address kinds x two networks x node forms x key classes (incl. a frozen table of leading-zero-x keys), "
             "request order generated on one key object; script templates byte for byte; RIPEMD-160/HASH160 for every "
@@ -46,15 +48,18 @@ CHECKS = {
             "samples per length (false-alarm probability < 1e-25).", "5/C08"),
     "C09": ("round-trip + constructed-rejection PBT vs own secp256k1",
             "Scalars incl. low-byte-01 class through every constructor, four WIF flavours, both SEC forms; bad scalars at "
-            "every construction site; every length 0..70; off-curve encodings decided by own Legendre symbol.", "5/C09"),
+            "every construction site; every length 0..70; off-curve encodings decided by own Legendre symbol; after each "
+            "valid key, wrong-length encodings of the same integer and the negated point (same x) in the same process.",
+            "5/C09"),
     "C10": ("round-trip PBT + constructed invalid checksums vs independent Base58Check",
             "Leading-zero construction, strings over the alphabet, each checksum byte corrupted alone, truncations, string "
-            "edits incl. look-alikes, valid-then-corrupted decode order.", "5/C10"),
+            "edits incl. look-alikes, valid-then-corrupted decode order; byte-level clause also driven by coverage-guided "
+            "atheris/libFuzzer campaigns with the reference decoder as in-target oracle.", "5/C10"),
     "C11": ("differential PBT vs GF(32) Bech32 model + complete weight<=4 error enumeration",
             "All (version,length) pairs exhaustively; one-rule-at-a-time rejections with valid checksums for arbitrary "
             "constants; all 2,390,287 error patterns of weight <= 2 over 71 positions have distinct syndromes (so none of "
-            "weight <= 4 is undetected), none of weight <= 3 flips the constant, all 858 weight-4 flips applied end to end.",
-            "5/C11"),
+            "weight <= 4 is undetected), none of weight <= 3 flips the constant, all 858 weight-4 flips applied end to end; "
+            "Unicode case-folding substitutions; byte-level clause also under atheris/libFuzzer.", "5/C11"),
     "C12": ("differential PBT vs independent BIP85 with exhaustive parameter sweep",
             "All allowed parameters x masters x indexes, five call routes, recorded derivation path, out-of-range parameters "
             "and indexes on both sides of every bound, searched leading-zero derived keys.", "5/C12"),
@@ -75,13 +80,15 @@ CHECKS = {
             "all 12 versions; every string classified main/test/untagged by independent decoders.", "5/C16"),
     "C17": ("round-trip PBT + single-fault grammar for malformed paths",
             "Lists of length 0..5 over [0,2^32), both markers and roots, lookups on two wallets vs independent derivation, "
-            "malformed strings (root/junk/range/empty), 6..12-level paths (one listed known finding).", "5/C17"),
+            "malformed strings (root/junk/range/empty), 6..12-level paths (one listed known finding); an independent path "
+            "tokenizer as oracle for hypothesis- and atheris-generated strings.", "5/C17"),
     "C18": ("fault-sequence PBT with chosen PRF outputs vs BIP32's validity predicate",
             "IL in {n, n+1, 2^256-1, uniform>=n, n-k} must raise (private, public, master, BIP85 secrets) and valid "
             "neighbours must equal the reference; invalid output at a generated level of derive_path.", "5/C18"),
     "C19": ("round-trip PBT + exhaustive push lengths + strict-parser differential on hostile input",
             "Every element length 0..522, random scripts incl. totals past 0xffff, all prefixes, byte edits, arbitrary "
-            "binaries; varints at every band edge and all truncations.", "5/C19"),
+            "binaries (hypothesis and atheris/libFuzzer with the strict parser as in-target oracle); varints at every band "
+            "edge and all truncations.", "5/C19"),
     "C20": ("PBT over structured argv intents run through main() in process, vs fresh API call",
             "Five sub-commands, option order/spelling, file path states, one fault at a validator bound or none; outcome "
             "oracle on status/stdout/files; 5% re-run as real subprocess in the thorough tier (one listed known finding).",
